@@ -375,15 +375,16 @@ def scaledWeight (all : List Gw) (e : Ep) : Nat :=
 /-- **routeSpec - written from the statement's text, not from the filter's code.**
     * an endpoint the proxy may not see is not served;
     * an endpoint on the same (or an unknown) network, or whose network has no gateway, is served
-      with its **own address** (scaled weight) - or not at all if it has none to connect to;
+      with its **own address** (scaled weight); only an endpoint that was reported without any
+      address (empty host, not a unix socket) cannot be, and is left out;
     * a remote endpoint is **never** served with its own address: with mTLS and a gateway the proxy
       can reach, its weight is split evenly among the reachable gateways of its network; otherwise
       it is not served. -/
 def routeSpec (b : Builder) (all : List Gw) (e : Ep) (r : Route) : Prop :=
   (visible b e = false → r = .dropped) ∧
   (visible b e = true → ¬ remote b all e →
-    (((lbOf b e).pipe = false ∧ (lbOf b e).host ≠ "") → r = .direct { lbOf b e with weight := scaledWeight all e }) ∧
-    (¬ ((lbOf b e).pipe = false ∧ (lbOf b e).host ≠ "") → r = .dropped)) ∧
+    (((lbOf b e).pipe = true ∨ (lbOf b e).host ≠ "") → r = .direct { lbOf b e with weight := scaledWeight all e }) ∧
+    (¬ ((lbOf b e).pipe = true ∨ (lbOf b e).host ≠ "") → r = .dropped)) ∧
   (visible b e = true → remote b all e →
     (∀ le, r ≠ .direct le) ∧
     ((mtlsOn b e = true ∧ reachableGws b (selectGws all e.net e.cluster) ≠ []) →
@@ -413,14 +414,20 @@ theorem route_satisfies_spec (b : Builder) (all : List Gw) (e : Ep) : routeSpec 
     constructor
     · intro hd
       simp only [route, hv, Bool.not_true, Bool.false_eq_true, if_false, hc, if_true, scaledWeight]
-      simp [hd.1, hd.2]
+      rcases hd with hd | hd
+      · simp [hd]
+      · simp [hd]
     · intro hd
       simp only [route, hv, Bool.not_true, Bool.false_eq_true, if_false, hc, if_true]
-      by_cases h1 : (lbOf b e).pipe = false
-      · by_cases h2 : (lbOf b e).host = ""
-        · simp [h1, h2]
-        · exact absurd ⟨h1, h2⟩ hd
-      · simp [h1]
+      have h1 : (lbOf b e).pipe = false := by
+        cases h : (lbOf b e).pipe
+        · rfl
+        · exact absurd (Or.inl h) hd
+      have h2 : (lbOf b e).host = "" := by
+        by_cases h : (lbOf b e).host = ""
+        · exact h
+        · exact absurd (Or.inr h) hd
+      simp [h1, h2]
   · intro hv hr
     have hc := (remote_iff b all e).mp hr
     have hc' : (!(b.proxyNetwork == "" && e.net != "" && !(selectGws all e.net e.cluster).isEmpty) &&
@@ -461,7 +468,7 @@ theorem routeSpec_unique (b : Builder) (all : List Gw) (e : Ep) (r : Route) (h :
     · by_cases hc : mtlsOn b e = true ∧ reachableGws b (selectGws all e.net e.cluster) ≠ []
       · rw [(a3 hv hr).2.1 hc, (b3 hv hr).2.1 hc]
       · rw [(a3 hv hr).2.2 hc, (b3 hv hr).2.2 hc]
-    · by_cases hc : (lbOf b e).pipe = false ∧ (lbOf b e).host ≠ ""
+    · by_cases hc : (lbOf b e).pipe = true ∨ (lbOf b e).host ≠ ""
       · rw [(a2 hv hr).1 hc, (b2 hv hr).1 hc]
       · rw [(a2 hv hr).2 hc, (b2 hv hr).2 hc]
 
